@@ -214,7 +214,8 @@ Definition classify_jpeg (bs : list N) : option nat :=
    Every bare `.read(buf)` / `.write(buf)` (one call, possibly short) of non-test SDK code, as the translator
    (vlib/props/c35.py) finds them, with the class that makes it harmless or names what the run must exercise:
      forwarder   — the body of an `impl Read/Write for Wrapper`: passes the inner stream's contract through;
-     memory      — the reader is always a Cursor over bytes already in memory (translator checks the callers);
+     memory      — the reader is always a Cursor over bytes already in memory (translator checks the callers); since fix
+                   7b268693b read_header loops its read until the 8-byte header is full, read_desc_box still reads once;
      run         — on the caller's stream; schedule dependent (c35_single_read_dependent); exercised by the run;
      not_io      — a method called `write` that takes the writer as argument and uses write_all inside. *)
 From Coq Require Import String.
@@ -231,7 +232,7 @@ Definition modelled_io_sites : list io_site := [
   ("asset_handlers/bmff_io.rs", "write_c2pa_box", "write", "not_io");
   ("asset_handlers/bmff_io.rs", "write_xmp_box", "write", "not_io");
   ("asset_handlers/bmff_io.rs", "write_free_box", "write", "not_io");
-  ("asset_handlers/riff_io.rs", "write_cai", "write", "not_io");
+  ("asset_handlers/riff_io.rs", "write_cai_impl", "write", "not_io");
   ("asset_handlers/riff_io.rs", "embed_reference_to_stream", "write", "not_io");
   ("asset_handlers/riff_io.rs", "embed_reference_to_stream", "write", "not_io");
   ("http/wasi.rs", "read", "read", "forwarder");
